@@ -90,6 +90,20 @@ theorem fixed_box_fragmented_on_own_page :
     Positioned.fixedKept (some 0) 304 vb 16 288 [10, 10] = 1 ∧ Positioned.fixedKept none 304 vb 16 288 [10, 10] = 2 := by
   decide +kernel
 
+/-- `top: 0; bottom: 0; height: 200px; max-height: 100px; margin: auto 0` in a 300px-high containing block:
+`absolute_height` solves the equation with the specified height (both margins 50), `block_container_layout` then
+clamps the height to 100 and nothing is solved again (horizontally `absolute_width` is re-run by
+`handle_min_max_width`): the border box lies at 50..150 from the top instead of being centred at 100..200, and
+`top + margin box + bottom = 200 ≠ 300`.  `abs_block_equation_v_partial` therefore needs the hypothesis that
+min-height / max-height did not change a specified or solved height (finding abs-height-min-max-not-resolved). -/
+theorem abs_height_min_max_not_resolved :
+    let st : Absolute.AbsStyle := ⟨.px 0, .auto, .px 0, .px 0, .px 50, .px 200, .px 0, .px 0, .auto, .auto,
+      .px 0, .px 0, .px 0, .px 0, 0, 0, 0, 0, .auto, .auto, .auto, .px 100⟩
+    (absoluteBlock st ⟨20, 20, 100, 300⟩ true 20 20 0 0 0 0).toOption.map
+      (fun r => (r.y, r.height, r.mt, r.mb, r.y + r.mh + 0)) = some (20, 100, 50, 50, 220) ∧
+    (220 : Rat) ≠ 20 + 300 := by
+  refine ⟨by decide +kernel, by decide +kernel⟩
+
 /-- Zero-height *shapes* make the collision test a closed-interval test (boundary behaviour of
 `collide_iff`): a box that only touches a zero-height float with its bottom edge is treated as
 colliding, so `as_high_as_possible` needs shapes of positive height. -/
